@@ -260,6 +260,18 @@ func TestVerifC08Tamper(t *testing.T) {
 		restart := func() {
 			in = nil
 			s.w.clock += 1000
+			// sometimes storage changes while the server is starting up (between two of its reads)
+			if rapid.IntRange(0, 2).Draw(t, "tamperDuringLoad") == 0 {
+				at := rapid.IntRange(1, 9).Draw(t, "tamperLoadAt")
+				count := 0
+				s.w.yield = func(p *simProc, op *simOp) {
+					count++
+					if count == at {
+						tamper(fmt.Sprintf("during start-up before %s %s", op.Kind, op.Class))
+					}
+				}
+				defer func() { s.w.yield = nil }()
+			}
 			guard("LoadLog", func() {
 				i2, err := s.load(nil)
 				if err != nil {
